@@ -134,7 +134,7 @@ def xmi_delta(n):
     return bytes(out)
 
 
-def gen_xmi_song(rng, with_tempo=True, n=None):
+def gen_xmi_song(rng, with_tempo=True, n=None, loops=False):
     """list of (delta_before, kind, channel, a, b, duration) in XMI ticks"""
     evs = []
     if with_tempo:
@@ -147,7 +147,11 @@ def gen_xmi_song(rng, with_tempo=True, n=None):
         if c < 0.55:
             evs.append((d, "note", ch, rng.randrange(128), rng.choice([1, 64, 127]), rng.choice([0, 1, 30, 120, 200, 20000])))
         elif c < 0.75:
-            evs.append((d, "cc", ch, rng.choice([7, 10, 11, 1, 64, 32, 114]), rng.randrange(128), 0))
+            if loops and rng.random() < 0.6:
+                # AIL loop controllers: 116 FOR (count), 117 NEXT (>= 64) / BREAK (< 64), 119 callback trigger; balanced or not
+                evs.append((d, "cc", ch, rng.choice([116, 116, 117, 117, 119]), rng.choice([0, 1, 2, 3, 63, 64, 127]), 0))
+            else:
+                evs.append((d, "cc", ch, rng.choice([7, 10, 11, 1, 64, 32, 114]), rng.randrange(128), 0))
         elif c < 0.85:
             evs.append((d, "pc", ch, rng.randrange(128), 0, 0))
         elif c < 0.92:
@@ -158,7 +162,7 @@ def gen_xmi_song(rng, with_tempo=True, n=None):
     return evs
 
 
-def encode_xmi_song(evs, timb=False):
+def encode_xmi_song(evs, timb=False, rbrn=None):
     b = bytearray()
     for (d, kind, ch, a, x, dur) in evs:
         b += xmi_delta(d)
@@ -180,8 +184,18 @@ def encode_xmi_song(evs, timb=False):
     body = b"XMID"
     if timb:
         body += b"TIMB" + struct.pack(">I", 4) + b"\x01\x00\x05\x00"
+    if rbrn is not None:
+        body += rbrn
     body += evnt
     return b"FORM" + struct.pack(">I", len(body)) + body
+
+
+def gen_rbrn(rng):
+    """an RBRN (branch point) chunk: count, then (id, offset) pairs; sometimes with a length that does not fit the file"""
+    n = rng.choice([0, 1, 3])
+    data = struct.pack("<H", n) + b"".join(struct.pack("<HI", rng.choice([0, 1, 127, 128, 300]), rng.choice([0, 3, 40, 0xFFFFFFFF])) for _ in range(n))
+    ln = rng.choice([len(data), len(data), len(data) + 1, 0, 1, 0x7FFFFFFF, 0xFFFFFFF8, 0xFFFFFFFE, 0xFFFFFFFF, 0x80000000])
+    return b"RBRN" + struct.pack(">I", ln) + data + (b"\0" if len(data) % 2 else b"")
 
 
 def encode_xmi(songs, timb=False):
@@ -190,9 +204,14 @@ def encode_xmi(songs, timb=False):
             b"CAT " + struct.pack(">I", len(cat)) + cat)
 
 
-def gen_xmi(rng, nsongs=None):
+def gen_xmi(rng, nsongs=None, loops=False):
     nsongs = nsongs or rng.choice([1, 1, 2, 3])
-    return encode_xmi([gen_xmi_song(rng, with_tempo=rng.random() < 0.8) for _ in range(nsongs)], timb=rng.random() < 0.3)
+    if not loops:
+        return encode_xmi([gen_xmi_song(rng, with_tempo=rng.random() < 0.8) for _ in range(nsongs)], timb=rng.random() < 0.3)
+    cat = b"XMID" + b"".join(encode_xmi_song(gen_xmi_song(rng, with_tempo=rng.random() < 0.8, loops=True), rng.random() < 0.3,
+                                             gen_rbrn(rng) if rng.random() < 0.5 else None) for _ in range(nsongs))
+    return (b"FORM" + struct.pack(">I", 14) + b"XDIR" + b"INFO" + struct.pack(">I", 2) + struct.pack("<H", nsongs) +
+            b"CAT " + struct.pack(">I", len(cat)) + cat)
 
 
 def xmi_reference(evs):
